@@ -56,7 +56,7 @@ static void gen_descriptor(void)
         for (int i = 0; i < ND; i++) {
                 struct dcmd *d = &D[i]; memset(d, 0, sizeof *d);
                 snprintf(d->name, sizeof d->name, "+C%02d%s", i, chance(30) ? "LONGER" : chance(20) ? "x" : "");
-                d->has_desc = chance(40); snprintf(d->desc, sizeof d->desc, "d%d%s", i, chance(50) ? " some text" : "");
+                d->has_desc = chance(40); snprintf(d->desc, sizeof d->desc, "d%d%s", i, chance(50) ? " some text" : ""); if (chance(8)) d->desc[0] = 0;      /* an empty description is still a description: the newline is printed */
                 d->only_test = chance(12); d->disable = chance(12); d->implicit = chance(10); d->grp = i < NG ? i : (int)rn((unsigned)NG);
                 d->hmask = rn(16); if (d->implicit) d->hmask &= 4;
                 d->nv = chance(65) ? 1 + (int)rn(6) : 0;
